@@ -494,3 +494,56 @@ def check_parsed_numerals(ctx, rep, RULE):
                % (label, n, len(paths), sorted("%s->%s" % (g[1], "/".join(sorted(v))) for g, v in feeds.items())),
                how="field == +/- int(digits) entailed on every path where the digits are parsed", witness=bad, nontrivial=True,
                key="parsed-numeral/" + label.replace(" ", "-"))
+
+
+def check_printer_keeps_fields(ctx, rep, RULE):
+    """A number that is held is the number that is written.  The atom printer is run with one numeric field (isotope, hydrogen
+    count, charge) symbolic and the others at their defaults; on every path on which the output contains no text computed from
+    the field, the path condition must pin the field to a value the SMILES atom reader assigns when nothing is written for it
+    (its default: no isotope -> None, no H -> 0, no charge -> 0).  `if atom.isotope:` in place of `is not None` leaves a path
+    "isotope == 0, nothing printed" although the reader's default is None: [0C] is written as [C] and gains hydrogens."""
+    from sa.sym import State
+    from sa.lin import Lin, ge, eq
+    P = ctx.fn(SU + ".atom_to_smiles")
+    ra = reader_atoms(ctx)
+    defaults = {}
+    for st, a in ra["atoms"]:
+        for nm, v in a.fields.items():
+            if isinstance(v, Con):
+                defaults.setdefault(nm, set()).add(v.value)
+            elif isinstance(v, Num) and v.lin.is_const():
+                defaults.setdefault(nm, set()).add(int(v.lin.k))
+    numeric = [nm for nm in ("isotope", "h_count", "charge") if nm in defaults]
+    if len(numeric) < 3:
+        raise AnalysisError("numeric fields of the atoms the SMILES reader builds not identified (%s)" % sorted(defaults))
+    bad = None
+    n_paths = 0
+    for nm in numeric:
+        for br in (True, False):
+            h = IntFacts(ctx)
+            eng = Engine(ctx, h)
+            h.bind(eng)
+            x = Lin.var(("field", nm))
+            st0 = State()
+            if nm != "charge":
+                st0.add_lin(ge(x, 0))
+            fields = {"element": Con("C"), "is_aromatic": Con(False), "isotope": Con(None), "chirality": Con(None),
+                      "h_count": Num(Lin.const(0)), "charge": Num(Lin.const(0)), "index": Con(None)}
+            fields[nm] = Num(x)
+            a = Obj(("atom", nm), "selfies.mol_graph.Atom", fields)
+            fr = eng.run_function(P, {P.posparams[0]: a, "brackets": Con(br)}, state=st0)
+            if not fr.returns:
+                raise AnalysisError("atom printer has no return path for a symbolic %s" % nm)
+            for st, v in fr.returns:
+                n_paths += 1
+                if repr(("field", nm)) in repr(v):
+                    continue
+                ds = [d for d in defaults[nm] if isinstance(d, int) and not isinstance(d, bool) and st.entails(eq(x - d, 0))]
+                if not ds and bad is None:
+                    vals = [d for d in range(0, 4) if st.entails(eq(x - d, 0))]
+                    bad = "the atom printer writes nothing for %s on a path where it is %s, but the SMILES atom reader reads a missing %s as %s: " \
+                          "the written atom is read back with a different %s" % (nm, vals[0] if vals else "not fixed", nm,
+                                                                                  sorted(map(repr, defaults[nm])), nm)
+    rep.ob(RULE, bad is None, P.node, P, construct="atom printer, %d paths over symbolic isotope / H count / charge" % n_paths,
+           how="a field is omitted only where it equals the reader's default for an unwritten field", witness=bad, nontrivial=True,
+           key="printer-keeps-fields")
